@@ -42,6 +42,7 @@ class Executor(CallMixin, EvalMixin, ExprMixin, StmtMixin):
         self.current_props = []
         self.ob_counter = 0
         self.numbered = set()
+        self.frame_parent = {}
         self.pending_facts = []     # ground axiom instances to be assumed in every obligation of the current function
 
     def note_assumption(self, s): self.assumptions.add(s)
@@ -85,6 +86,16 @@ class Executor(CallMixin, EvalMixin, ExprMixin, StmtMixin):
             for k, v in st.env.items():          # quantified / ghost variables stay visible
                 if k not in o.env: o.env[k] = v
             for s2, v in self.ev(node.args[0], o): yield st, v
+            return
+        if name == "at_loop":
+            # value of an expression when the loop with the given ordinal was (last) entered
+            ordv = node.args[0].value
+            snap = st.loop_snap.get(ordv)
+            if snap is None: raise VCError("at_loop(%s): loop not entered on this path" % ordv)
+            o = snap.fork(); o.env = dict(snap.env); o.pc = st.pc
+            for k, v in st.env.items():
+                if k not in o.env: o.env[k] = v
+            for s2, v in self.ev(node.args[1], o): yield st, v
             return
         if name == "pre":
             # current variables, heap of the function's pre-state: "the old fields of the object that is now at ..."
